@@ -10,7 +10,7 @@ bind  : spec -> code : TLC states are grouped into real wannierise calls on synt
         states and select nothing outside the specification's outer window; whether they are *equal* to the
         specification's sets is reported as information.
         code -> spec : full runs (init amn/random/restart, 0..5 iterations, localise on/off, mixing of Z and of U,
-        symmetrize_Z off, explicit frozen bands as list and as per-k dict) are recorded per k-point (final v_matrix and, when
+        symmetrize_Z off, explicit frozen bands as list and as per-k dict, rank-deficient projections) are recorded per k-point (final v_matrix and, when
         observable, every intermediate gauge matrix, projected to support/rank/residual buckets against the specification's
         frozen/outer sets) and validated by TLC.
 """
@@ -34,7 +34,9 @@ PROPS = {
                      "uses freeze every state of the frozen window and select nothing outside the outer window (multiplets cut by an edge: "
                      "dropped from the frozen, added to the outer window). Numeric: every gauge matrix of real runs (final v_matrix; "
                      "initial and after each iteration when observable) has orthonormal columns, zero rows outside the outer window and "
-                     "contains the frozen unit vectors in its span (1e-8; observed 1e-15).",
+                     "contains the frozen unit vectors in its span (1e-8; observed 1e-15), also for rank-deficient projections on the selected bands (a zero "
+                     "column, two equal columns, a column supported only outside the outer window) x gauge straight from the projections "
+                     "(num_iter=0, localise=False) or after localisation: every combination is a required input class.",
                 note="exact in TLA+: window semantics, nesting, multiplets, feasibility |frozen| <= num_wann <= |outer| (named "
                      "precondition Feasible; infeasible inputs are not run). The InitU/Update/Finalize part of MC_Disentangle sets "
                      "support/rank/captured by construction: it only carries num_wann to the replay and proves nothing, its states are "
@@ -53,7 +55,7 @@ WINDOW_ACTIONS = ["Init", "SelectFrozen", "SelectOuter", "AddFrozenStates", "Com
 MP = (2, 2, 1)
 # clauses of DisentangleRec that are not demanded by the statement (the implementation's present choice) / harness-vs-spec
 INFO_CLAUSES = ("frozen_equals_spec", "free_equals_spec", "never_split", "event_order")
-HARNESS_CLAUSES = ("harness_sets", "sorted", "feasible_if_ran")
+HARNESS_CLAUSES = ("harness_sets", "sorted", "feasible_if_ran", "amn_class")
 
 
 class _Stop(Exception):
@@ -89,7 +91,10 @@ class World:
             self._mmn[key] = [np.array([C[ik].conj().T @ C[self.bk.neighbours[ik][ib]] for ib in range(self.bk.NNB)]) for ik in range(self.NK)]
         return self._mmn[key]
 
-    def wandata(self, Elist, nw, variant=0):
+    def wandata(self, Elist, nw, variant=0, defect=None, outer_sets=None):
+        """defect: rank-deficient projections on the selected bands at every k-point where that is possible: "zero" (last column
+        zero), "dup" (last column = first column), "outside" (last column supported only on bands outside the outer window).
+        self.last_defects = per k (class, rows of support of the defective column)"""
         from wannierberri.w90files.wandata import WannierData
         from wannierberri.w90files.eig import EIG
         from wannierberri.w90files.amn import AMN
@@ -100,7 +105,26 @@ class World:
         wd.set_file("bkvec", self.bk)
         wd.set_file("eig", EIG(data=[np.array(E, dtype=float) * UNIT for E in Elist]))
         wd.set_file("mmn", MMN(data=[m.copy() for m in self.mmn(nb, variant)]))
-        wd.set_file("amn", AMN(data=[self.nprs.randn(nb, nw) + 1j * self.nprs.randn(nb, nw) for _ in range(self.NK)]))
+        amn = [self.nprs.randn(nb, nw) + 1j * self.nprs.randn(nb, nw) for _ in range(self.NK)]
+        self.last_defects = [("full", [])] * self.NK
+        if defect is not None:
+            self.last_defects = []
+            for ik in range(self.NK):
+                kind, rows = defect, []
+                if defect == "outside":
+                    rows = [b for b in range(nb) if b not in outer_sets[ik]]
+                    if not rows:
+                        kind = "zero"
+                if kind == "dup" and nw < 2:
+                    kind = "zero"
+                if kind == "zero":
+                    amn[ik][:, -1] = 0
+                elif kind == "dup":
+                    amn[ik][:, -1] = amn[ik][:, 0]
+                else:
+                    amn[ik][[b for b in range(nb) if b not in rows], -1] = 0
+                self.last_defects.append((kind, rows if kind == "outside" else []))
+        wd.set_file("amn", AMN(data=amn))
         return wd
 
 
@@ -251,16 +275,19 @@ def _check(rep, tier):
     st0 = tlc.run_tlc("MC_Disentangle.tla", cfg("swapped"), sc.uniq("c24_mc_swapped"), workers=sc.WORKERS, timeout=1500)
     if not st0.get("violation"):
         raise MachineryError("sensitivity self-test failed: exchanging the include_degen flags of the two windows must violate an invariant")
-    rep.part("sensitivity", swapped_flags_violate=st0["violation"][1])
+    st1 = tlc.run_tlc("MC_Disentangle.tla", cfg("dropnull"), sc.uniq("c24_mc_dropnull"), workers=sc.WORKERS, timeout=1500)
+    if not st1.get("violation") or st1["violation"][1] != "GaugeInvariant":
+        raise MachineryError(f"sensitivity self-test failed: dropping the null directions of rank-deficient projections must violate GaugeInvariant, got {st1.get('violation')}")
+    rep.part("sensitivity", swapped_flags_violate=st0["violation"][1], dropped_null_directions_violate=st1["violation"][1])
 
     ready, failed, done = [], [], []
     for s in ftable.dump_states(st):
         if s["pc"] not in ("ready", "assert_failed", "done"):
             continue
         d = dict(E=list(s["E"]), win=(s["flo"], s["fhi"], s["olo"], s["ohi"]), extra=tuple(sorted(j - 1 for j in s["extra"])),
-                 frozen=sorted(j - 1 for j in s["frozen"]), free=sorted(j - 1 for j in s["free"]), outer=sorted(j - 1 for j in s["outer"]), nw=s["nw"])
+                 frozen=sorted(j - 1 for j in s["frozen"]), free=sorted(j - 1 for j in s["free"]), outer=sorted(j - 1 for j in s["outer"]), nw=s["nw"], amn=s["amn"])
         {"ready": ready, "assert_failed": failed, "done": done}[s["pc"]].append(d)
-    full_key = lambda d: (len(d["E"]), d["E"], d["win"], d["extra"], d["nw"])
+    full_key = lambda d: (len(d["E"]), d["E"], d["win"], d["extra"], d["nw"], d["amn"])
     for lst in (ready, failed, done):       # the dump order of TLC is not deterministic
         lst.sort(key=full_key)
     if not ready or not failed or not done:
@@ -345,15 +372,20 @@ def _check(rep, tier):
     modes = {}
     edge = dict(no_free_dimension=0, no_disentanglement=0, nothing_frozen_but_disentangled=0, unequal_frozen_counts=0, per_k_frozen_states=0,
                 mix_ratio_u=0, symmetrize_Z_off=0)
+    DEFECTS, MODES = ("zero", "dup", "outside"), dict(num_iter_0=dict(init="amn", num_iter=0), localise_off=dict(init="amn", num_iter=2, localise=False),
+                                                       localise_on=dict(init="amn", num_iter=2))
+    edge.update({f"amn_{k}:{m}": 0 for k in DEFECTS for m in MODES})
 
-    def full_run(Elist, win, extras, nw, frozen_sets, outer_sets, setting, as_dict):
-        """extras: per k-point tuple of explicitly frozen bands; as_dict: hand them over as {ik: [bands]} instead of a list"""
+    def full_run(Elist, win, extras, nw, frozen_sets, outer_sets, setting, as_dict, defect=None):
+        """extras: per k-point tuple of explicitly frozen bands; as_dict: hand them over as {ik: [bands]} instead of a list;
+        defect: class of rank-deficient projections (World.wandata)"""
         nonlocal maxres
-        wd = world.wandata(Elist, nw=nw, variant=rng.randrange(3))
+        wd = world.wandata(Elist, nw=nw, variant=rng.randrange(3), defect=defect, outer_sets=outer_sets)
+        defects = list(world.last_defects)
         kw = dict(setting)
         init = kw.pop("init")
         fs = {ik: list(e) for ik, e in enumerate(extras) if e} if as_dict else list(extras[0])
-        detail = dict(E=Elist, windows_flo_fhi_olo_ohi=win, frozen_states=fs, num_wann=nw, setting=repr(setting), unit=UNIT)
+        detail = dict(E=Elist, windows_flo_fhi_olo_ohi=win, frozen_states=fs, num_wann=nw, setting=repr(setting), unit=UNIT, projections=defects)
         if init == "random":
             np.random.seed(rng.randrange(2**31))
             kw["num_wann"] = nw
@@ -378,6 +410,10 @@ def _check(rep, tier):
         edge["per_k_frozen_states"] += int(as_dict and bool(fs))
         edge["mix_ratio_u"] += int(setting.get("mix_ratio_u", 1) != 1)
         edge["symmetrize_Z_off"] += int(setting.get("symmetrize_Z", True) is False)
+        if defect is not None:
+            mode = "num_iter_0" if setting.get("num_iter") == 0 else ("localise_off" if setting.get("localise", True) is False else "localise_on")
+            for kind in {k for k, _ in defects if k != "full"}:
+                edge[f"amn_{kind}:{mode}"] += 1
         for ik in range(NK):
             fzs, ous = sorted(frozen_sets[ik]), sorted(outer_sets[ik])
             edge["no_free_dimension"] += int(len(fzs) == nw)
@@ -395,6 +431,7 @@ def _check(rep, tier):
                 mfz, mfr = fzs, sorted(set(ous) - set(fzs))
             recs.append(dict(E=[int(e) for e in Elist[ik]], flo=win[0], fhi=win[1], olo=win[2], ohi=win[3], extra=[int(x) for x in extras[ik]], nw=nw,
                              asserted=False, frozen=mfz, free=mfr, capt_rows=[int(x) for x in fzs], outer_rows=[int(x) for x in ous], events=events,
+                             amn=defects[ik][0], amn_rows=[int(x) for x in defects[ik][1]],
                              setting=repr(setting), hooked=bool(use_hook)))
             rep.case(("run", tuple(Elist[ik]), win, tuple(extras[ik]), nw, repr(setting), as_dict))
 
@@ -402,16 +439,18 @@ def _check(rep, tier):
     #     frozen bands to different k-points (dict form)
     gdone, gany = {}, {}
     for d in done:
-        gdone.setdefault((len(d["E"]), d["win"], d["extra"], d["nw"]), []).append(d)
-        gany.setdefault((len(d["E"]), d["win"], d["nw"]), []).append(d)
+        gdone.setdefault((len(d["E"]), d["win"], d["extra"], d["nw"], d["amn"]), []).append(d)
+        gany.setdefault((len(d["E"]), d["win"], d["nw"], d["amn"]), []).append(d)
     dkeys = sorted(gdone)
     for n, key in enumerate(rng.sample(dkeys, min(len(dkeys), 600 if thorough else 60))):
-        nb, win, extra, nw = key
+        nb, win, extra, nw, amncls = key
         as_dict = n % 5 == 4
-        members = gany[(nb, win, nw)] if as_dict else gdone[key]
+        members = gany[(nb, win, nw, amncls)] if as_dict else gdone[key]
         batch = [members[(rng.randrange(len(members)) if (m >= len(members) or as_dict) else m)] for m in range(NK)]
+        setting = settings[n % len(settings)]
+        deficient = batch[0]["amn"] == "deficient" and setting["init"] == "amn"
         full_run([d["E"] for d in batch], win, [d["extra"] for d in batch], nw, [set(d["frozen"]) for d in batch], [set(d["outer"]) for d in batch],
-                 settings[n % len(settings)], as_dict)
+                 setting, as_dict, defect=DEFECTS[n % 3] if deficient else None)
     # (b) larger random inputs (more bands, multiplets cut by every edge)
     nrand = 300 if thorough else 40
     tries = 0
@@ -445,7 +484,15 @@ def _check(rep, tier):
         if lo_nw > hi_nw or hi_nw < 1:
             continue
         nw = [max(1, lo_nw), hi_nw, rng.randint(max(1, lo_nw), hi_nw)][tries % 3]
-        full_run(Elist, (flo, fhi, olo, ohi), extras, nw, fro, out, settings[tries % len(settings)], as_dict)
+        if nrand % 3 == 2:        # rank-deficient projections x how the gauge is produced: every combination, empty classes first
+            combos = [(k, m) for k in DEFECTS for m in MODES]
+            empty = [c for c in combos if edge[f"amn_{c[0]}:{c[1]}"] == 0]
+            defect, mode = empty[0] if empty else combos[tries % len(combos)]
+            if (defect == "dup" and nw < 2) or (defect == "outside" and all(len(o) == nb for o in out)):
+                continue
+            full_run(Elist, (flo, fhi, olo, ohi), extras, nw, fro, out, MODES[mode], as_dict, defect=defect)
+        else:
+            full_run(Elist, (flo, fhi, olo, ohi), extras, nw, fro, out, settings[tries % len(settings)], as_dict)
         nrand -= 1
     if not rep.violations:
         for m in ("amn", "random", "restart"):
